@@ -483,6 +483,14 @@ class CSemantics:
             self.error("Invalid type specifiers", location)
         return ctyp
 
+    def is_typedef_name(self, name):
+        """Test if the name refers to a typedef in the current scope."""
+        if self.scope.is_defined(name):
+            declaration = self.scope.get_identifier(name).declaration
+            return isinstance(declaration, declarations.Typedef)
+        else:
+            return False
+
     def on_typename(self, name, location):
         """Handle the case when a typedef is referred"""
         # Lookup typedef
